@@ -240,6 +240,34 @@ def oracle(ctx):
         ctx.count(("limit-dtype", str(ldt)))
         if vl.dtype != DT or not abs(float(vl) - 14.0) <= 1e-13:
             ctx.fail("oracle", "quad:limit-dtype:%s" % str(ldt), {"limits": str(ldt), "integrand": "float64"}, [str(vl.dtype), float(vl)], 14.0)
+    # the forward rule is the caller's n whatever the backward options say (round-3 seed C12/7: forward ran on the options merged
+    # with bck_options): number of integrand evaluations and exactness degree with bck_options={"n": ...}
+    for nf, nb in ((3, 40), (5, 2), (4, 4)):
+        npts = [0]
+
+        def fcount(x):
+            npts[0] += 1
+            return x ** (2 * nf - 1) + x ** (2 * nf - 2)
+        vq = quad(fcount, torch.tensor(0.0, dtype=DT), torch.tensor(1.0, dtype=DT), n=nf, bck_options={"n": nb})
+        ctx.count(("fwd-n-vs-bck-n", nf, nb))
+        exact_q = 1.0 / (2 * nf) + 1.0 / (2 * nf - 1)
+        if npts[0] - 1 != nf or not abs(float(vq) - exact_q) <= 1e-13:
+            ctx.fail("oracle", "quad:forward-rule-uses-backward-options", {"n": nf, "bck_options": {"n": nb}},
+                     {"integrand_evaluations": npts[0] - 1, "value": float(vq)}, {"integrand_evaluations": nf, "value": exact_q})
+    # infinite limits with many nodes and an algebraically decaying integrand: the change of variables is exact up to the last
+    # node (round-3 seed C12/8: sec(t) clamped near pi/2, visible only for n of a few hundred)
+    for nn in (300, 600):
+        for name, f, ref in (("lorentz-doubly", lambda: quad(lambda x: 1 / (1 + x * x), -inf, inf, n=nn), math.pi),
+                             ("lorentz-half", lambda: quad(lambda x: 1 / (1 + x * x), zero, inf, n=nn), math.pi / 2),
+                             ("x2-over-1+x4", lambda: quad(lambda x: x * x / (1 + x ** 4), -inf, inf, n=nn), math.pi / math.sqrt(2))):
+            try:
+                v = float(f())
+            except Exception as e:
+                ctx.fail("oracle", "quad:inf:many-nodes:" + name, {"n": nn}, repr(e)[:200], ref)
+                continue
+            ctx.count(("inf-many-nodes", name, nn))
+            if not abs(v - ref) <= 1e-9:
+                ctx.fail("oracle", "quad:inf:many-nodes:" + name, {"n": nn}, v, ref)
     v32 = quad(lambda x: x * x, torch.tensor(0.0), torch.tensor(3.0), n=4)
     if v32.dtype != torch.float32 or not abs(float(v32) - 9.0) <= 1e-5:
         ctx.fail("oracle", "quad:float32", {}, v32, 9.0)
